@@ -68,7 +68,7 @@ void init() {
 			if (rng.coin()) nif.DeleteShader(sh);
 			sh = nif.FindBlockByName<NiShape>(name);
 			auto tp = std::make_unique<NiTexturingProperty>();
-			tp->textureCount = 7;
+			tp->textureCount = 12;
 			bool* has[4] = {&tp->hasBaseTex, &tp->hasDarkTex, &tp->hasDetailTex, &tp->hasGlowTex};
 			TexDesc* td[4] = {&tp->baseTex, &tp->darkTex, &tp->detailTex, &tp->glowTex};
 			int nt = 1 + (int)rng.below(4);
